@@ -81,6 +81,10 @@ func topCall(cfg ReadCfg) string {
 // C04: the message reader reassembles every valid frame stream exactly under
 // any chunking.
 func C04(r *eng.Run) {
+	if r.T.Chance(sim.LEntry, 1, 2500) {
+		c04Huge(r)
+		return
+	}
 	cfg := drawReadCfg(r, []int{AppReader, AppReader, AppReader, AppNextReader, AppNextReader, AppReadMessage, AppReadMessage, AppReadData, AppReadData, AppReadData, AppReadFrame})
 	r.SetEntry(cfg.Name())
 	s := GenStream(r, StreamCfg{Recv: cfg.Side, MaxMsgs: 6, TextValid: true, Rsv23: cfg.Extended})
@@ -110,7 +114,10 @@ func C04(r *eng.Run) {
 		// One temporary read error inside the payload of a data frame; the
 		// application reads every unit to its end and retries.
 		cfg.Retry, cfg.NoDiscard, cfg.PerFrame = true, true, false
-		p.Transient = TransientIn(r, s.Frames)
+		var inPay bool
+		p.Transient, inPay = TransientIn(r, s.Frames)
+		// ... and now and then the failing Read has taken some bytes already.
+		p.TransientData = inPay && r.T.Chance(sim.LFault, 1, 3)
 	}
 	r.Note("C04 %s side=%d seg=%d eofWithData=%v stream: %s", cfg.Name(), cfg.Side, p.SegMode, p.EOFWithData, s.Describe())
 
